@@ -44,7 +44,7 @@ theorem parseOpts_written (os : List IpOpt) (hn : ∀ p ∈ os, OptNormal p) (k 
         rw [readU8_cons _ _ _ (by omega)]
         have hz0 : (0 : UInt8).toNat = 0 := rfl
         have hs0 : singleByte 0 = true := by decide
-        have hsk := skip_spec' ⟨List.replicate k 0 ++ tail, size - 1⟩ (pos + (k + 1) - (pos + 1)) (by simp only; omega)
+        have hsk := skip_closed ⟨List.replicate k 0 ++ tail, size - 1⟩ (pos + (k + 1) - (pos + 1)) (by simp only; omega)
         simp only [hz0, hs0, Bool.not_true, Bool.false_eq_true, if_false, bind, Out.bind]
         simp only [beq_self_eq_true, if_true, hsk, pure]
         have e1 : pos + (k + 1) - (pos + 1) = k := by omega
@@ -116,7 +116,7 @@ theorem parseOpts_written (os : List IpOpt) (hn : ∀ p ∈ os, OptNormal p) (k 
             unfold Cursor.peek
             rw [rdN_zero _ _ _ (by simp)]
             simp
-          have hsk := skip_spec' ⟨p.data ++ (Ip4.optsBytes ps ++ (List.replicate k 0 ++ tail)), size - 1 - 1⟩ p.data.length
+          have hsk := skip_closed ⟨p.data ++ (Ip4.optsBytes ps ++ (List.replicate k 0 ++ tail)), size - 1 - 1⟩ p.data.length
             (by simp only; omega)
           simp only [hpk, hsk, List.drop_left']
           have hrec := ih hps (pos + 1 + 1 + p.data.length) fuel (size - 1 - 1 - p.data.length) (by omega) (by omega)
